@@ -94,8 +94,14 @@ where
         loop {
             let yielded_count = self.yielded_counter.current();
             match begin_idx.cmp(&yielded_count) {
-                // begin_idx==yielded_count => it is our job to provide the items
-                Ordering::Equal => return Some(begin_idx),
+                // begin_idx==yielded_count => it is our job to provide the items,
+                // unless the iteration is already over (the reserved counter restarts after `skip_to_end`)
+                Ordering::Equal => {
+                    return match self.completed.load(atomic::Ordering::Relaxed) {
+                        true => None,
+                        false => Some(begin_idx),
+                    }
+                }
 
                 Ordering::Less => return None,
 
@@ -115,6 +121,11 @@ where
             match item_idx.cmp(&yielded_count) {
                 // item_idx==yielded_count => it is our job to provide the item
                 Ordering::Equal => {
+                    // the iteration is already over (the reserved counter restarts after `skip_to_end`)
+                    if self.completed.load(atomic::Ordering::Relaxed) {
+                        return None;
+                    }
+
                     // SAFETY: no other thread has the valid condition to iterate, they are waiting
                     let next = unsafe { self.mut_iter() }.next();
                     match next.is_some() {
